@@ -662,3 +662,5 @@ RENAME_FUNCS = [(F, 'transpose_note_sequence'), (CS, 'transpose_chord_symbol'), 
                 ('note_seq/melodies_lib.py', 'Melody.transpose'), ('note_seq/melodies_lib.py', 'Melody.squash'),
                 ('note_seq/chords_lib.py', 'ChordProgression.transpose'), ('note_seq/lead_sheets_lib.py', 'LeadSheet.transpose'),
                 ('note_seq/lead_sheets_lib.py', 'LeadSheet.squash')]
+
+EXPLANATION += (' Location-independent additions: DRUM/keep-condition and DRUM/total-time (three-valued evaluation with is_drum true), SEQ/melody-case (path-wise values + residue algebra for x % 12, x // 12), SEQ/chords-memo-key (a memo is keyed by the figure read), TAB/mod-12 definite form.')
